@@ -44,3 +44,10 @@ package blockwise
 //@   requires contract.DecodeBlockOption(v, szx, n, m, e1) && e1 == nil
 //@   requires contract.EncodeBlockOption(szx, n, m, v2, e2)
 //@   ensures [enc-of-dec] e2 == nil && v2 == v
+//
+// Assumed contract (block-wise reassembly is not under contract; it may run arbitrary handlers):
+//
+//@ func (*BlockWise) Handle(w *responsewriter.ResponseWriter, r *pool.Message, maxSZX SZX, maxMessageSize uint32, next func(*responsewriter.ResponseWriter, *pool.Message))
+//@   trusted
+//@   modifies anything
+//@   ensures w != nil ==> w.response == old(w.response)
